@@ -56,6 +56,7 @@ type World struct {
 	Mode string
 	// activity counters for fixpoint detection
 	podRSWrites int
+	faultsSuspended int
 	// LastErr[ctl ns/name] = error text of the last reconcile of that object ("" when none)
 	LastErr map[string]string
 }
@@ -105,6 +106,11 @@ func (w *World) Reconcile(ctl, ns, name string) kit.Outcome {
 	}
 	w.tracef("reconcile %s %s/%s -> res=%s err=%v panic=%q calls=%d", ctl, ns, name, out.Inv.ResultStr, out.Err, out.Panic, len(out.Inv.Calls))
 	w.Mon.OnInvocation(out)
+	if out.Inv.Dead {
+		// process stop: every reconciler instance is discarded, in-memory state is lost
+		w.Ctl.Rebuild()
+		w.tracef("*** controller process restarted (in-memory state lost)")
+	}
 	return out
 }
 
